@@ -199,7 +199,8 @@ class ArrayConstraintBuilder(ConstraintOverrideVisitor):
     def visit_field_scalar_array(self, f:FieldArrayModel):
         if self.phase == 0:
             # TODO: this logic is for rand-sized array fields
-            if f.is_rand_sz:
+            # (whose size is being solved for in this call)
+            if f.is_rand_sz and f.size.is_used_rand:
                 size_bound = self.bound_m[f.size]
                 range_l = size_bound.domain.range_l
                 max_size = int(range_l[-1][1])
